@@ -4,8 +4,11 @@
 
     The functions of Model/TlsClient.v are taken as they are; what is proved about them here is their
     report discipline ([rk]): a function that returns has written nothing, a function that exits has
-    written at least one report (tls_init() is the exception: its negative return has written one, and
-    connect_mx() exits on it).  Totality (no [Stuck]) comes from Proofs/TlsSwitchTotal.v. *)
+    written exactly one report (tls_init() is the exception: its negative return has written one, and
+    connect_mx() exits on it); and, since loop_long() reads with the caller's [fatal], nothing below
+    connect_mx() exits at all ([nx]): net_read(0) never ends in dieerror(), so quitmsg() -- whatever the
+    server sends or does not send in the QUIT exchange -- returns without a report.
+    Totality (no [Stuck]) comes from Proofs/TlsSwitchTotal.v. *)
 From Qv Require Import Common.Bytes Gen.GenNetio Gen.GenQremote Gen.GenStarttls Model.NetRead Model.TlsClient
   Model.QrConnect Proofs.NetReadProofs Proofs.TlsSwitchTotal.
 From Coq Require Import Lia.
@@ -17,16 +20,21 @@ Definition zword (w : bytes) : Prop := hd 0%N w = 90%N.       (* the report star
 Definition rk {A} (rp : list bytes) (r : res A) : Prop :=
   match r with
   | Ret _ s' => s_rpt s' = rp
-  | Exit s' => exists ws, ws <> [] /\ s_rpt s' = rp ++ ws /\ Forall zword ws
+  | Exit s' => exists w, s_rpt s' = rp ++ [w] /\ zword w
   | Stuck _ => True
   end.
+
+(** the function does not exit *)
+Definition nx {A} (r : res A) : Prop := match r with Exit _ => False | _ => True end.
+Lemma nx_bind {A B} (m : res A) (f : A -> st -> res B) : nx m -> (forall a s, nx (f a s)) -> nx (rbind m f).
+Proof. intros Hm Hf. destruct m as [a s|s|s]; cbn [rbind nx] in *; auto. Qed.
 
 Lemma rk_bind {A B} rp (m : res A) (f : A -> st -> res B) :
   rk rp m -> (forall a s, s_rpt s = rp -> rk rp (f a s)) -> rk rp (rbind m f).
 Proof. intros Hm Hf. destruct m as [a s|s|s]; cbn [rbind rk] in *; auto. Qed.
 
 Lemma rk_exit1 {A} rp s w : s_rpt s = rp ++ [w] -> zword w -> rk rp (@Exit A s).
-Proof. intros H Hw. exists [w]. split; [discriminate|]. split; [exact H|]. constructor; [exact Hw|constructor]. Qed.
+Proof. intros H Hw. exists w. split; [exact H|exact Hw]. Qed.
 
 (* ------------------------------------------------------------------ state updates *)
 Lemma rpt_log e s : s_rpt (log e s) = s_rpt s. Proof. reflexivity. Qed.
@@ -50,19 +58,58 @@ Lemma z_pinload : zword ST_RPT_PINLOAD. Proof. reflexivity. Qed.
 Lemma z_tlsaadd : zword ST_RPT_TLSAADD. Proof. reflexivity. Qed.
 
 (* ------------------------------------------------------------------ netio.c, reply.c *)
+(** loop_long() reads with the caller's fatal (breaks on a tree without fixes/C04-loop-long-fatal.diff) *)
+Lemma fix_loop_long : ST_LOOPLONG_PASSES_FATAL = true. Proof. reflexivity. Qed.
+Lemma long_end_reset : long_end = RReset. Proof. unfold long_end. rewrite fix_loop_long. reflexivity. Qed.
+
+(** net_read(0) never ends in dieerror() *)
+Lemma read_loop2_no_die fuel : forall buf e, fst (read_loop2 fuel buf e) <> RDie.
+Proof.
+  induction fuel as [|fuel IH]; intros buf e; cbn [read_loop2]; [discriminate|].
+  destruct (readinput e (LINEINBUF - length buf)) as [[d e1]|]; [|discriminate].
+  destruct (find_eol (buf ++ d)) as [p valid].
+  set (retry := match p with Some p' => _ | None => false end).
+  destruct (if retry then None else p) as [p'|].
+  - destruct valid; [discriminate|].
+    destruct (Nat.eqb p' (LINEINBUF - 1) && N.eqb (nth (p' - 1) (buf ++ d) 0%N) CR); [|discriminate].
+    destruct (loop_long (S (length (rest e1))) e1 true) as [[i|] e2]; cbn [fst]; [discriminate|].
+    rewrite long_end_reset. discriminate.
+  - destruct (Nat.ltb (length (buf ++ d)) (LINEINBUF - 1)); [apply IH|].
+    destruct (loop_long (S (length (rest e1))) e1 false) as [[i|] e2]; cbn [fst]; [discriminate|].
+    rewrite long_end_reset. discriminate.
+Qed.
+
+Lemma net_read2_no_die s : fst (net_read2 s) <> RDie.
+Proof.
+  unfold net_read2. destruct (inn s) as [|x r]; [apply read_loop2_no_die|].
+  destruct (find_eol (x :: r)) as [p valid]. destruct p as [p|]; [|apply read_loop2_no_die].
+  destruct valid; [discriminate|].
+  destruct (N.eqb (nth (p - 1) (x :: r) 0%N) CR && Nat.eqb p (length (x :: r))); [apply read_loop2_no_die|discriminate].
+Qed.
+
 Lemma nread_rk s : rk (s_rpt s) (nread s).
 Proof.
-  unfold nread. destruct (net_read2 _) as [it r].
+  unfold nread. pose proof (net_read2_no_die {| inn := s_inn (purge s); en := chan (purge s) |}) as Hd.
+  destruct (net_read2 _) as [it r]. cbn [fst] in Hd.
   assert (H : s_rpt (upd_net (purge s) (inn r) (en r)) = s_rpt s) by (rewrite rpt_upd_net, rpt_purge; reflexivity).
-  destruct it; try (cbn [rk]; rewrite ?rpt_log; exact H); [|exact I].
-  apply (rk_exit1 _ _ ST_RPT_DIED); [|apply z_died].
-  unfold die. rewrite rpt_set_conn, rpt_report, H. reflexivity.
+  destruct it; try (cbn [rk]; rewrite ?rpt_log; exact H); [congruence|exact I].
+Qed.
+
+Lemma nread_nx s : nx (nread s).
+Proof.
+  unfold nread. pose proof (net_read2_no_die {| inn := s_inn (purge s); en := chan (purge s) |}) as Hd.
+  destruct (net_read2 _) as [it r]. cbn [fst] in Hd. destruct it; cbn [nx]; auto.
 Qed.
 
 Lemma netget0_rk s : rk (s_rpt s) (netget0 s).
 Proof.
   unfold netget0. apply rk_bind; [apply nread_rk|]. intros it s1 H.
   destruct it; cbn [rk]; auto. destruct (netget_code l); cbn [rk]; rewrite rpt_set_linein; exact H.
+Qed.
+Lemma netget0_nx s : nx (netget0 s).
+Proof.
+  unfold netget0. apply nx_bind; [apply nread_nx|]. intros it s1.
+  destruct it; cbn [nx]; auto. destruct (netget_code l); exact I.
 Qed.
 
 (** what netget(0) can return in this network: a reply code, -EINVAL or -ECONNRESET *)
@@ -99,12 +146,26 @@ Proof.
   - destruct (Z.eqb sc ST_EHLO_OK && negb err); [|apply IH].
     destruct (check_ext (ext_arg (s_linein s1)) <? 0)%Z; apply IH.
 Qed.
+Lemma ehlo_loop_nx fuel : forall sc ret err s, nx (ehlo_loop fuel sc ret err s).
+Proof.
+  induction fuel as [|f IH]; intros sc ret err s; cbn [ehlo_loop]; destruct (dash3 s); cbn [nx]; auto.
+  apply nx_bind; [apply netget0_nx|]. intros t s1.
+  destruct (negb (Z.eqb sc t)).
+  - destruct (t <? 0)%Z; [exact I|apply IH].
+  - destruct (Z.eqb sc ST_EHLO_OK && negb err); [|apply IH].
+    destruct (check_ext (ext_arg (s_linein s1)) <? 0)%Z; apply IH.
+Qed.
 
 Lemma helo_loop_rk fuel : forall sc err s, rk (s_rpt s) (helo_loop fuel sc err s).
 Proof.
   induction fuel as [|f IH]; intros sc err s; cbn [helo_loop]; destruct (dash3 s); cbn [rk]; auto.
   apply rk_bind; [apply netget0_rk|]. intros t s1 H. rewrite <- H.
   destruct (t <? 0)%Z; [reflexivity|apply IH].
+Qed.
+Lemma helo_loop_nx fuel : forall sc err s, nx (helo_loop fuel sc err s).
+Proof.
+  induction fuel as [|f IH]; intros sc err s; cbn [helo_loop]; destruct (dash3 s); cbn [nx]; auto.
+  apply nx_bind; [apply netget0_nx|]. intros t s1. destruct (t <? 0)%Z; [exact I|apply IH].
 Qed.
 
 Lemma greeting_rk s : rk (s_rpt s) (greeting s).
@@ -121,6 +182,16 @@ Proof.
   destruct (negb err2 && Z.eqb sh ST_EHLO_OK); [exact H5|].
   destruct (negb err2 && (ST_HELO_FAIL_LO <=? sh)%Z && (sh <=? ST_HELO_FAIL_HI)%Z); exact H5.
 Qed.
+Lemma greeting_nx s : nx (greeting s).
+Proof.
+  unfold greeting. apply nx_bind; [apply netget0_nx|]. intros sc s1. destruct (sc <? 0)%Z; [exact I|].
+  apply nx_bind; [apply ehlo_loop_nx|]. intros r s2. destruct r as [t|[ret err]]; [exact I|].
+  destruct err; [exact I|]. destruct (Z.eqb sc ST_EHLO_OK); [exact I|].
+  apply nx_bind; [apply netget0_nx|]. intros sh s4. destruct (sh <? 0)%Z; [exact I|].
+  apply nx_bind; [apply helo_loop_nx|]. intros r2 s5. destruct r2 as [t|err2]; [exact I|].
+  destruct (negb err2 && Z.eqb sh ST_EHLO_OK); [exact I|].
+  destruct (negb err2 && (ST_HELO_FAIL_LO <=? sh)%Z && (sh <=? ST_HELO_FAIL_HI)%Z); exact I.
+Qed.
 
 (* ------------------------------------------------------------------ qremote.c: quitmsg, net_conn_shutdown *)
 Lemma quit_loop_rk fuel : forall s, rk (s_rpt s) (quit_loop fuel s).
@@ -132,37 +203,50 @@ Proof.
   - rewrite <- (rpt_set_linein l s1). apply IH.
   - reflexivity.
 Qed.
+Lemma quit_loop_nx fuel : forall s, nx (quit_loop fuel s).
+Proof.
+  induction fuel as [|f IH]; intros s; cbn [quit_loop nx]; auto.
+  apply nx_bind; [apply nread_nx|]. intros it s1. destruct it; cbn [nx]; auto.
+  destruct (Nat.leb 4 (length l) && N.eqb (nth 3 l 0%N) DASH); [apply IH|exact I].
+Qed.
 
 Lemma quitmsg_rk s : rk (s_rpt s) (quitmsg s).
 Proof.
   unfold quitmsg. apply rk_bind; [rewrite <- (rpt_nwrite ST_CMD_QUIT s); apply quit_loop_rk|].
   intros u s1 H. cbn [rk]. destruct ST_QUITMSG_RESETS_ROUTE; rewrite ?rpt_set_route, rpt_set_conn; exact H.
 Qed.
+Lemma quitmsg_nx s : nx (quitmsg s).
+Proof. unfold quitmsg. apply nx_bind; [apply quit_loop_nx|]. intros u s1. exact I. Qed.
 
-(** net_conn_shutdown(shutdown_clean) exits and keeps what was reported; it may add a report
-    (dieerror() under quitmsg()) *)
-Definition exits_with_more {A} (rp : list bytes) (r : res A) : Prop :=
+(** QUITMSG NEVER WRITES A REPORT and never ends the process: for every state of the program and every
+    behaviour of the server in the QUIT exchange (any bytes in any segmentation: a reply, a multi-line
+    reply, garbage, an over-long line, an over-long line that never ends; then close or silence) it returns
+    with the status stream as it found it. *)
+Theorem quitmsg_silent s : good s ->
+  exists s', quitmsg s = Ret tt s' /\ s_rpt s' = s_rpt s.
+Proof.
+  intros Hg. pose proof (quitmsg_rk s) as H1. pose proof (quitmsg_nx s) as H2. pose proof (quitmsg_ns s Hg) as H3.
+  destruct (quitmsg s) as [[] s'|s'|s']; cbn [rk nx ns] in *; try contradiction. eauto.
+Qed.
+
+(** net_conn_shutdown(shutdown_clean): exit with the reports as they were *)
+Definition exits_same {A} (rp : list bytes) (r : res A) : Prop :=
   match r with
-  | Exit s' => exists ws, s_rpt s' = rp ++ ws /\ Forall zword ws
+  | Exit s' => s_rpt s' = rp
   | Ret _ _ => False
   | Stuck _ => True
   end.
 
-Lemma shutdown_clean_rk {A} s : exits_with_more (s_rpt s) (@shutdown_clean A s).
+Lemma shutdown_clean_rk {A} s : exits_same (s_rpt s) (@shutdown_clean A s).
 Proof.
-  unfold shutdown_clean. destruct (s_sock s).
-  - pose proof (quitmsg_rk s) as H. destruct (quitmsg s) as [u s1|s1|s1]; cbn [rk exits_with_more] in *; auto.
-    + exists []. rewrite app_nil_r. split; [exact H|constructor].
-    + destruct H as (ws & _ & H & F). exists ws. auto.
-  - exists []. rewrite app_nil_r. split; [reflexivity|constructor].
+  unfold shutdown_clean. destruct (s_sock s); [|reflexivity].
+  pose proof (quitmsg_rk s) as H. pose proof (quitmsg_nx s) as Hx.
+  destruct (quitmsg s) as [u s1|s1|s1]; cbn [rk nx exits_same] in *; auto; contradiction.
 Qed.
 
-Lemma exits_more_nonempty {A} rp (r : res A) w : zword w -> exits_with_more (rp ++ [w]) r -> rk rp r.
+Lemma exits_same_rk {A} rp (r : res A) w : zword w -> exits_same (rp ++ [w]) r -> rk rp r.
 Proof.
-  intros Hw. destruct r as [a s|s|s]; cbn [rk exits_with_more]; auto; [contradiction|].
-  intros (ws & H & F). exists (w :: ws). split; [discriminate|]. split.
-  - rewrite H, <- app_assoc. reflexivity.
-  - constructor; auto.
+  intros Hw. destruct r as [a s|s|s]; cbn [rk exits_same]; auto; [contradiction|]. intros H. exists w. auto.
 Qed.
 
 Lemma quitmsg_if_net_rk err s : rk (s_rpt s) (quitmsg_if_net err s).
@@ -183,15 +267,9 @@ Qed.
 Definition tls_rk (rp : list bytes) (r : res Z) : Prop :=
   match r with
   | Ret v s' => if (v <? 0)%Z then exists w, s_rpt s' = rp ++ [w] /\ zword w else s_rpt s' = rp
-  | Exit s' => exists ws, ws <> [] /\ s_rpt s' = rp ++ ws /\ Forall zword ws
+  | Exit s' => exists w, s_rpt s' = rp ++ [w] /\ zword w
   | Stuck _ => True
   end.
-
-Lemma rk_tls_rk rp (r : res Z) : rk rp r -> (forall v s, r = Ret v s -> (0 <= v)%Z) -> tls_rk rp r.
-Proof.
-  destruct r as [v s|s|s]; cbn [rk tls_rk]; auto. intros H Hv.
-  specialize (Hv v s eq_refl). destruct (Z.ltb_spec v 0); [lia|exact H].
-Qed.
 
 Lemma tls_rk_nonneg rp v s' : (0 <= v)%Z -> s_rpt s' = rp -> tls_rk rp (Ret v s').
 Proof. intros Hv H. cbn [tls_rk]. destruct (Z.ltb_spec v 0); [lia|exact H]. Qed.
@@ -249,7 +327,7 @@ Proof.
   - pose proof (tls_init_rk c tlsa s3) as HT. rewrite H3 in HT.
     destruct (tls_init c tlsa s3) as [r s4|s4|s4]; cbn [rbind rk tls_rk] in *; auto.
     destruct (r <? 0)%Z.
-    + destruct HT as (w & HT & Hw). apply (exits_more_nonempty _ _ w Hw). rewrite <- HT. apply shutdown_clean_rk.
+    + destruct HT as (w & HT & Hw). apply (exits_same_rk _ _ w Hw). rewrite <- HT. apply shutdown_clean_rk.
     + destruct (negb (Z.eqb r 0)); [apply next_rk; rewrite <- HT; apply quitmsg_if_net_rk|].
       apply rk_bind; [rewrite <- HT; apply greeting_rk|]. intros g2 s5 H5.
       destruct (g2 <? 0)%Z; [apply next_rk; rewrite <- H5; apply quitmsg_if_net_rk|exact H5].
@@ -310,12 +388,12 @@ Proof.
 Qed.
 
 (** THE CONNECT PHASE, for every case (any number of MX entries, any server bytes, closes and silences,
-    any STARTTLS/OpenSSL oracle, failing dup2()): it never gets stuck; when the process exits in it, at
-    least one report was written and all reports start with Z; when it hands a connection to
-    send_envelope(), nothing has been written to the status stream yet. *)
+    any STARTTLS/OpenSSL oracle, failing dup2()): it never gets stuck; when the process exits in it,
+    EXACTLY ONE report was written (also on the exits that go through quitmsg()), and it starts with Z;
+    when it hands a connection to send_envelope(), nothing has been written to the status stream yet. *)
 Theorem connect_phase_reports k :
   match connect_phase true true k with
-  | PExited s => s_rpt s <> [] /\ Forall zword (s_rpt s)
+  | PExited s => exists w, s_rpt s = [w] /\ zword w
   | PConnected _ _ s => s_rpt s = []
   | PStuck _ => False
   end.
@@ -330,11 +408,10 @@ Proof.
     + destruct (ST_PINNED_NEEDS_TLS && negb (s_ssl s) && pinned c); [|exact HR].
       pose proof (@shutdown_clean_rk unit (report ST_RPT_PINNED s)) as HS.
       pose proof (@shutdown_clean_exits unit (report ST_RPT_PINNED s) Hg) as HX.
-      destruct (shutdown_clean (report ST_RPT_PINNED s)) as [u s'|s'|s']; cbn [exits exits_with_more] in *; try contradiction.
-      destruct HS as (ws & H & F). rewrite rpt_report, HR in H. cbn [app] in H. rewrite H.
-      split; [discriminate|]. constructor; [apply z_pinned|exact F].
-    + cbn. rewrite HR. cbn. split; [discriminate|]. constructor; [apply z_noconn|constructor].
-  - destruct HR as (ws & Hne & H & F). cbn [app] in H. rewrite H. auto.
+      destruct (shutdown_clean (report ST_RPT_PINNED s)) as [u s'|s'|s']; cbn [exits exits_same] in *; try contradiction.
+      rewrite rpt_report, HR in HS. exists ST_RPT_PINNED. split; [exact HS|apply z_pinned].
+    + cbn. rewrite HR. exists ST_RPT_NOCONN. split; [reflexivity|apply z_noconn].
+  - exact HR.
 Qed.
 
 (** the unfixed code: a server that accepts the connection and stays silent makes Qremote exit
@@ -358,9 +435,6 @@ Definition mail_of (p : phase_end) : option nat :=
 Lemma zword_b_ok w : zword w -> zword_b w = true.
 Proof. unfold zword, zword_b. intros ->. reflexivity. Qed.
 
-Lemma forall_zword_b ws : Forall zword ws -> forallb zword_b ws = true.
-Proof. induction 1; cbn; [reflexivity|]. rewrite zword_b_ok by assumption. assumption. Qed.
-
 (** the model of the harness run meets the specification, for every case *)
 Theorem run_q_spec k :
   match run_q_with true true k with
@@ -371,8 +445,8 @@ Proof.
   unfold run_q_with. pose proof (connect_phase_reports k) as H.
   pose proof LB as HLB.
   destruct (connect_phase true true k) as [s|c g s|s] eqn:EP; [| |contradiction].
-  - destruct H as [Hne F]. unfold conn_spec_ok. cbn [mail_of Nat.eqb andb].
-    rewrite forall_zword_b by exact F. destruct (s_rpt s); [congruence|reflexivity].
+  - destruct H as (w & Hs & Hw). unfold conn_spec_ok. cbn [mail_of Nat.eqb andb]. rewrite Hs.
+    cbn [forallb length Nat.leb Nat.eqb negb andb]. rewrite zword_b_ok by exact Hw. reflexivity.
   - set (s1 := nwrite MAIL_CMD (log (EvMail (s_ssl s) (Z.to_N g)) s)).
     assert (Hg : good s1).
     { (* the state behind connect_mx() is good: from the totality proof *)
@@ -388,7 +462,32 @@ Proof.
       - discriminate. }
     pose proof (@shutdown_clean_rk unit s1) as HS.
     pose proof (@shutdown_clean_exits unit s1 Hg) as HX.
-    destruct (shutdown_clean s1) as [u s'|s'|s']; cbn [exits exits_with_more] in *; try contradiction.
-    destruct HS as (ws & Hs & F). change (s_rpt s1) with (s_rpt s) in Hs. rewrite H in Hs. cbn [app] in Hs.
-    unfold conn_spec_ok. cbn [mail_of]. rewrite H, Hs, forall_zword_b by exact F. reflexivity.
+    destruct (shutdown_clean s1) as [u s'|s'|s']; cbn [exits exits_same] in *; try contradiction.
+    change (s_rpt s1) with (s_rpt s) in HS. rewrite H in HS.
+    unfold conn_spec_ok. cbn [mail_of]. rewrite H, HS. reflexivity.
 Qed.
+
+(* ------------------------------------------------------------------ the QUIT exchange before the fix (F-C04-8) *)
+(** a pinned host reached without TLS: main() reports "Z4.5.0 ..." and shuts down cleanly; the server
+    answers QUIT with 1500 octets without CRLF and closes.  [W_quit_state]: the program state after
+    that report, with the reply on the wire. *)
+Definition W_quit_reply : bytes := repeat 122%N 1500.
+Definition W_quit_state : st :=
+  mkSt [] false {| cur := []; future := [W_quit_reply] |} {| cur := []; future := [] |} false true [] false false []
+       [ST_RPT_PINNED].
+
+(** loop_long() with fatal = 1: dieerror() under quitmsg() writes a second report *)
+Lemma unfixed_quit_second_report :
+  match @shutdown_clean_old unit W_quit_state with
+  | Exit s => s_rpt s = [ST_RPT_PINNED; ST_RPT_DIED]
+  | _ => False
+  end.
+Proof. vm_compute. reflexivity. Qed.
+
+(** the code that exists: one report *)
+Lemma fixed_quit_one_report :
+  match @shutdown_clean unit W_quit_state with
+  | Exit s => s_rpt s = [ST_RPT_PINNED]
+  | _ => False
+  end.
+Proof. vm_compute. reflexivity. Qed.
